@@ -76,9 +76,8 @@ FreqEncodable(f) == f.r = 0 /\ f.q < 16777216
 CFListFails(e) ==
   IF e.err # "" THEN <<"C15.cflist">>
   ELSE IF info.extra THEN
-    (IF \E k \in 1..Len(chans) : chans[k].cu /\ chans[k].f = ZeroF THEN <<>>       \* zero-frequency slots: DON'T-CARE
-     ELSE LET exp == CFListChannels(chans, info.cfmin, info.cfmax) IN
-          Tag(IF exp[1] = ZeroF THEN e.val = <<>> ELSE e.val = <<[type |-> 0, chans |-> exp]>>, "C15.cflist")
+    (    LET exp == CFListChannels(chans, info.cfmin, info.cfmax) IN     \* a zero frequency is a (disabled) slot like any other
+          Tag(IF \A i \in 1..5 : exp[i] = ZeroF THEN e.val = <<>> ELSE e.val = <<[type |-> 0, chans |-> exp]>>, "C15.cflist")
           \o (IF e.val # <<>> /\ e.val[1].type = 0 /\ \A i \in 1..5 : FreqEncodable(e.val[1].chans[i])
                 THEN Tag(e.merr = "" /\ e.uerr = "" /\ e.back = e.val /\ e.jerr = "" /\ e.jlen = 33 /\ e.bytes = CFListBytes(e.val[1]), "C15.encodable")
               ELSE IF e.val # <<>> /\ e.val[1].type = 0 /\ e.bname = "ISM2400" THEN Tag(e.merr = "" /\ e.uerr = "" /\ e.back = e.val, "C15.encodable")
